@@ -149,6 +149,16 @@ def render_structs(k, it: Item, meta, cfg, strum_path="strum"):
             ty, " ".join("%d => %s::%s," % (i, it.ident, v.ident) for i, v in enumerate(it.variants))))
         src.append("pub fn slotpos(e: &%s) -> usize { match e { %s _ => usize::MAX } }" % (
             ty, " ".join("%s::%s => %d," % (it.ident, it.variants[i].ident, p) for p, i in enumerate(en))))
+        if not it.cparams and not it.tparams:
+            arms["ctor"] = '''
+                // Default::default() of the table: one INDEPENDENT default value per slot (no slot shares its value with another one), for
+                // every value type that is Default (Clone not required)
+                let t: %(tn)s<std::rc::Rc<std::cell::Cell<i64>>> = Default::default();
+                let counts: Vec<String> = vec![%(en)s].into_iter().map(|i| format!("{}", std::rc::Rc::strong_count(&t[var(i)]))).collect();
+                let a: %(tn)s<std::sync::atomic::AtomicUsize> = Default::default();
+                let zeros: Vec<String> = vec![%(en)s].into_iter().map(|i| format!("{}", a[var(i)].load(std::sync::atomic::Ordering::SeqCst))).collect();
+                format!("rc=[{}]|atomic=[{}]", counts.join(";"), zeros.join(";"))
+            ''' % {"tn": tname, "en": ", ".join("%dusize" % i for i in en)}
         dump = "format!(\"[{}]\", vec![%s].join(\",\"))" % ", ".join(
             "t[%s::%s].to_string()" % (it.ident, it.variants[i].ident) for i in en)
         arms["table"] = '''
